@@ -27,6 +27,11 @@ func (transScenario) Config(r *rand.Rand, small bool) string {
 	for i := range ops {
 		ops[i] = "OCFS"[r.Intn(4)] // OpenCircuit, CloseCircuit, Failing call, Succeeding call
 	}
+	if !small && r.Intn(3) == 0 {
+		// an operator override switched on while calls are in flight: ForceOpen makes IsOpen() true without any
+		// transition, so no notification may result from it (such configurations have no K2 model: flags are static there)
+		ops[r.Intn(k)] = 'X'
+	}
 	return fmt.Sprintf("init=%d ops=%s", r.Intn(2), ops)
 }
 
@@ -85,6 +90,12 @@ func (transScenario) Build(cfg string) ([]func(), func(*vsched.Sched) []string) 
 			bodies = append(bodies, func() { _ = c.Run(context.Background(), func(context.Context) error { return errBoom }) })
 		case 'S':
 			bodies = append(bodies, func() { _ = c.Run(context.Background(), func(context.Context) error { return nil }) })
+		case 'X':
+			bodies = append(bodies, func() {
+				conf := c.Config()
+				conf.General.ForceOpen = true
+				c.SetConfigThreadSafe(conf)
+			})
 		}
 	}
 	monitor := func(s *vsched.Sched) []string {
@@ -103,6 +114,11 @@ func (transScenario) Build(cfg string) ([]func(), func(*vsched.Sched) []string) 
 		last := initOpen
 		if len(rec.log) > 0 {
 			last = rec.log[len(rec.log)-1] == "O"
+		}
+		if strings.Contains(cfgStr(cfg, "ops"), "X") { // judge the underlying state: clear the override first
+			conf := c.Config()
+			conf.General.ForceOpen = false
+			c.SetConfigThreadSafe(conf)
 		}
 		if c.IsOpen() != last {
 			problems = append(problems, fmt.Sprintf("quiescent IsOpen()=%t but notifications %q from initial open=%t", c.IsOpen(), strings.Join(rec.log, ""), initOpen))
